@@ -3,6 +3,7 @@ package interp
 // Symbolic terms over bit-vectors and booleans, printed as SMT-LIB2.
 
 import (
+	"math"
 	"fmt"
 	"go/types"
 	"strings"
@@ -377,6 +378,8 @@ func kindWidth(k types.BasicKind) (w int, signed bool) {
 		return 32, false
 	case types.Uint, types.Uint64, types.Uintptr:
 		return 64, false
+	case types.Float64, types.UntypedFloat:
+		return 64, false // bit pattern; only moves, bit casts and ==/!= are supported
 	}
 	panic(fmt.Sprintf("kindWidth: unsupported kind %v", k))
 }
@@ -456,6 +459,8 @@ func termOf(v value) (*Term, types.BasicKind) {
 		return mkConst(64, v), types.Uint64
 	case uintptr:
 		return mkConst(64, uint64(v)), types.Uintptr
+	case float64:
+		return mkConst(64, math.Float64bits(v)), types.Float64
 	}
 	panic(fmt.Sprintf("termOf: not a scalar: %T", v))
 }
